@@ -324,11 +324,22 @@ def make_type(rng, nr, ftf_outer, n_duct=1, pd=None, wire=True, wall=None,
     wall = wall if wall is not None else (0.0015 + 0.002 * rng.random())
     byp_gap = byp_gap if byp_gap is not None else (0.001 + 0.002 *
                                                    rng.random())
+    # per-duct wall and per-gap thicknesses (outermost first); scalars mean
+    # "draw the inner ones around this value", lists are taken as given
+    walls = list(wall) if isinstance(wall, (list, tuple)) else [wall]
+    gaps = list(byp_gap) if isinstance(byp_gap, (list, tuple)) else [byp_gap]
+    while len(walls) < n_duct:
+        walls.append(walls[0] * (1.0 if kw.get('equal_walls')
+                                 else float(rng.uniform(0.4, 1.6))))
+    while len(gaps) < n_duct:
+        gaps.append(gaps[0] * (1.0 if kw.get('equal_walls')
+                               else float(rng.uniform(0.6, 1.5))))
+    kw.pop('equal_walls', None)
     ftf = []
     o = ftf_outer
     for d in range(n_duct):
-        ftf = [o - 2 * wall, o] + ftf
-        o = o - 2 * wall - 2 * byp_gap
+        ftf = [o - 2 * walls[d], o] + ftf
+        o = o - 2 * walls[d] - 2 * gaps[d]
     f_in = ftf[0]
     wf = (0.55 + 0.4 * rng.random()) if wire else 0.0
     sl = slack if slack is not None else 0.02 + 0.25 * rng.random()
@@ -385,16 +396,27 @@ def base_problem(length=1.0, asm_pitch=0.12, inlet=623.15,
 
 
 def add_position(P, tname, ring, pos, velocity=None, flowrate=None,
-                 dT=60.0, frac=(0.9, 0.06, 0.04), shape='rand', **spec):
-    """Place an assembly; flow from a bundle velocity, power from a
-    target temperature rise."""
+                 dT=60.0, frac=(0.9, 0.06, 0.04), shape='rand', bc='flowrate',
+                 **spec):
+    """Place an assembly; flow from a bundle velocity, power from a target
+    temperature rise. bc selects how the boundary condition is written:
+    'flowrate', 'outlet_temp' or 'delta_temp' (DASSH then derives the flow
+    from the assembly power)."""
     t = P['types'][tname]
+    rho, cp = P.get('coolant_rho_cp', (RHO, CP))
     if flowrate is None:
-        flowrate = RHO * velocity * flow_area(t)
-    P['positions'].append({'type': tname, 'ring': ring, 'pos': pos,
-                           'flowrate': float(flowrate)})
+        flowrate = rho * velocity * flow_area(t)
+    a = {'type': tname, 'ring': ring, 'pos': pos}
+    if bc == 'outlet_temp':
+        a['outlet_temp'] = float(P['inlet'] + dT)
+    elif bc == 'delta_temp':
+        a['delta_temp'] = float(dT)
+    else:
+        a['flowrate'] = float(flowrate)
+    a['nominal_flowrate'] = float(flowrate)
+    P['positions'].append(a)
     k0 = pos_index0(ring, pos)
-    d = {'total': float(flowrate * CP * dT), 'frac': list(frac),
+    d = {'total': float(flowrate * cp * dT), 'frac': list(frac),
          'shape': shape}
     d.update(spec)
     P['power']['asm'][str(k0)] = d
